@@ -4,7 +4,7 @@ BASE_NOTE = ("Trusted: Coq 8.16.1 kernel (vm_compute for witnesses/examples only
              "the correspondence harness (generators, exact-rational canonicalisation, observation mapping); CPython 3.12/numpy "
              "float64 semantics on the exact (dyadic) input families. The theorems are about the Gallina model; the tie to /repo/src "
              "is the correspondence run on every check (sampled, not proved). ")
-SOURCE_COMMITS = ["bc49a1c", "e3a7f92", "9ed7728", "007ee91", "c29e4c1", "17a47e5", "867807e", "949de5f", "5cc174a", "d64e197", "df761a4", "5d29398", "7a3c11a", "0a21c22", "aeeccf6", "59481a8", "b5aca95", "679700e", "ca2559c", "e1a34e7", "3b48309", "af04624", "d811d2c", "621ca2a", "dac1774", "93d477c", "102736c", "02123fe", "911bb12", "3ef9ffd"]   # "fix:" commits only (no guarded hooks exist)
+SOURCE_COMMITS = ["bc49a1c", "e3a7f92", "9ed7728", "007ee91", "c29e4c1", "17a47e5", "867807e", "949de5f", "5cc174a", "d64e197", "df761a4", "5d29398", "7a3c11a", "0a21c22", "aeeccf6", "59481a8", "b5aca95", "679700e", "ca2559c", "e1a34e7", "3b48309", "af04624", "d811d2c", "621ca2a", "dac1774", "93d477c", "102736c", "02123fe", "911bb12", "3ef9ffd", "15e9860", "9b7c6c3", "10af766", "15aa013"]   # "fix:" commits only (no guarded hooks exist)
 NOTES = ("Every check: (1) rebuilds the Coq development incrementally and re-checks coq/Props/<id>.v (grep gate for Admitted/Axiom/...); "
          "(2) runs physt from /repo/src and the extracted model on the same seeded cases; (3) applies the extracted check_<id> to the "
          "implementation's observation. VIOLATION lines carry a replay file; 'no-failing-input-found' is appended when only the "
@@ -70,6 +70,21 @@ CLAIMED = {
          "resulting contents are compared with the model for modelled calls."),
    note=BASE_NOTE + "Calls outside DtypeCases.dstep are checked only through the observation predicate (the property itself), "
         "not through a model; HistogramCollection constructor/add refusals are exercised in C12's cases."),
+ "C07": dict(
+   technique="Coq proofs about the representations (edges <-> pairs, masked edges agree with the pairs for gapped binnings, slices stay well-formed), the nearest-pretty-width cell and the integer bin-count rules + extracted decidable rule predicates applied to every binning physt produces",
+   text=("Theorems: edges -> pairs -> edges is the identity, pairs -> edges -> pairs is the identity exactly for consecutive pairs, "
+         "pairs are rising iff edges increase strictly; for EVERY binning the i-th mask entry of the masked-edge form points at "
+         "bin i's left edge and the next edge is its right edge; slices of rising bins are rising; inside the geometric-mean "
+         "cell no width beyond a neighbour is closer on the log scale; the inequalities for sturges / sqrt / rice determine the "
+         "count. Every binning physt produces (constructors of the 4 classes; numpy / fixed_width / integer / pretty / quantile / "
+         "exponential / static factories and bin-count names through calculate_1d_bins) is read back and judged by the extracted "
+         "predicates: rising, covers data or range, on the grid (1e-9 relative), integer-centred (exact), pretty width nearest "
+         "to range/bin_count, quantiles by linear interpolation, geometric edges, numpy edges bit-identical to "
+         "numpy.histogram_bin_edges, counts by exact integer inequalities (Doane on squared quantities); all derived attributes are "
+         "recomputed by the model from the pairs and compared; invalid specifications must be refused, valid ones accepted."),
+   note=BASE_NOTE + "The factories' floating-point arithmetic is not modelled (rules are checked on the result within stated "
+        "tolerances); astropy-based methods (blocks, knuth, scott, freedman) are not installed here and not covered; "
+        "is_regular is compared with numpy.allclose's absolute-tolerance meaning, which is what the code documents."),
  "C08": dict(
    technique="Coq proof of the document round trip (of_doc (to_doc h) = h for every well-formed histogram, same document again, member-wise for collections) and of the version order (total order on PEP 440 keys; refused iff older) + extracted-model correspondence on documents, readers and version decisions",
    text=("Theorems: for every well-formed histogram of the model (any class / number of axes / binning types / dtype / contents / "
